@@ -24,7 +24,7 @@ that the two are EQUAL.
   1. `BoundsOk opt.bounds.list` — every bound of the list has both sides inside `i32` and a left
      side that is not the literal 0;
   2. `FieldsFit line opt` — the record has fewer than 2³¹ fields (the vector `fields` after l.332-355;
-     the cast `parts_length as i32`, userbounds.rs:221).
+     sufficient; since `try_into_range` computes in `i64` only `complement` / `unpack` need it, see below).
   Componentwise: `cutStrLit_run`, `cutStrLit_fields`, `cutStrLit_buf`.
 * NO well-formedness of `Opt` is needed beyond the bounds.  The places where literal and model look
   different are all equal: the `unwrap`s of l.286 / 319 / 338 / 340 sit behind a test
@@ -62,14 +62,17 @@ The list-level `complement` / `unpack` (l.373, 402) are called through the model
   `UserBounds::new` builds it (library users).
 * a side outside `i32`: `optBigSide` — no Rust value; truncated, 2³² + 1 is the index 1.  Unreachable
   (`parse::<i32>`).
-* 2³¹ fields or more: `cutStrLit_length_necessary` — for EVERY record whose number of fields is
-  ≥ 2³¹ modulo 2³², `tuc` without options (`-f 1:`) returns `Err` ("Out of bounds: 1") where the
-  model prints the record; `cutStrLit_ne_cutStr_on_2GiB_line`: the record of 2³¹ − 1 TABs is one.
-  (With `k + 2³²` fields the Rust function silently behaves as with `k` fields: the `#guard` on the
-  closure.)  The real program CAN get there — a single record of 2 GiB or more; this is the
-  `parts_length as i32` truncation already reported by `Tuc.Props.BoundsLit`
-  (`tryIntoRange_length_necessary`), seen from `cut_str`.  GENUINE DEFECT of the Rust code, of
-  no practical weight.
+* 2³¹ fields or more (`FieldsFit`): since the repair of `try_into_range` (`i64` arithmetic instead of the
+  cast `parts_length as i32`; `Tuc.Props.BoundsLit.tryIntoRange_eq_i64`) this hypothesis is ONLY
+  SUFFICIENT for l.416: `resolve_eq`, `fieldToPrint_*`, `outputClosure_eq`, `tryForEach_eq` now hold for
+  every number of fields below 2⁶³, and the former witnesses `cutStrLit_length_necessary` /
+  `cutStrLit_ne_cutStr_on_2GiB_line` ("Out of bounds: 1" on a record of 2³¹ fields) are false and gone
+  (commit history).  In their place `cutStrLit_eq_cutStr_oneOpen`, `cutStrLit_eq_cutStr_on_2GiB_line`:
+  `tuc` without options (`-f 1:`) agrees with the model on EVERY record, the one of 2³¹ − 1 TABs included.
+  `FieldsFit` stays in the headline because `complementList_boundsOk` / `unpackList_boundsOk` (`-m`,
+  `--json` / `-c` with `-r`) still use it: the sides that `complement` / `unpack` build are field numbers,
+  which must fit an `i32` (`UserBounds::from(Range)`, `i as i32 + 1`: `Tuc.Props.BoundsListLit` §8 has the
+  witnesses at 2³¹ fields).
 
 Section 0 compares `cutStrLit` and `cutStr` by evaluation: 20 bounds lists (as the parser builds
 them) × 44 option records (every flag, fields / characters (`charsBag`) / regex / lines mode, the
@@ -116,11 +119,13 @@ theorem maybeReplaceDelimiter_true (text : Bytes) (opt : Opt) (h : DarOk opt tru
   · simp [h]
   · simp [h]
 
-/-- l.416 on the domain of the hypotheses (`BoundsLit.tryIntoRange_model`) -/
+/-- l.416 on the domain of the hypotheses (`BoundsLit.tryIntoRange_model_i64`: since the repair of
+    `try_into_range` — `i64` arithmetic instead of `parts_length as i32` — any number of parts up to
+    `i64::MAX`; this lemma and the four below it had `n < 2³¹` before) -/
 theorem resolve_eq (b : UserBounds) (n : Nat) (hl : b.l.InI32) (hr : b.r.InI32)
-    (hn : n < 2147483648) (h0 : b.l ≠ Side.some 0) :
+    (hn : n < 9223372036854775808) (h0 : b.l ≠ Side.some 0) :
     CutStrLit.resolve b n = resOfOption (b.tryIntoRange n) :=
-  tryIntoRange_model b n hl hr hn h0
+  tryIntoRange_model_i64 b n hl hr hn h0
 
 /-- a bound the Rust types can hold and the parser can produce: sides inside `i32`, left side not
     the literal 0 -/
@@ -134,7 +139,7 @@ theorem replaced_eq (s : Bytes) (opt : Opt) (dar : Bool) (hd : DarOk opt dar) :
 
 /-- l.418-426, the bound resolves: `fields[r.start]`, `r.end - 1`, `fields[..]`, `&line[a..b]` -/
 theorem fieldToPrint_some (line : Bytes) (fields : List Range) (n : Nat) (opt : Opt) (dar : Bool)
-    (b : UserBounds) (hb : BoundOk b) (hn : n < 2147483648) (hd : DarOk opt dar) (s e : Nat)
+    (b : UserBounds) (hb : BoundOk b) (hn : n < 9223372036854775808) (hd : DarOk opt dar) (s e : Nat)
     (h : b.tryIntoRange n = Option.some (s, e)) :
     CutStrLit.fieldToPrint line fields n opt dar b =
       match fields[s]?, fields[e - 1]? with
@@ -164,7 +169,7 @@ theorem fieldToPrint_some (line : Bytes) (fields : List Range) (n : Nat) (opt : 
 
 /-- l.427-434, the bound does not resolve: the fallbacks -/
 theorem fieldToPrint_none (line : Bytes) (fields : List Range) (n : Nat) (opt : Opt) (dar : Bool)
-    (b : UserBounds) (hb : BoundOk b) (hn : n < 2147483648)
+    (b : UserBounds) (hb : BoundOk b) (hn : n < 9223372036854775808)
     (h : b.tryIntoRange n = Option.none) :
     CutStrLit.fieldToPrint line fields n opt dar b =
       match b.fallback with
@@ -183,7 +188,7 @@ theorem fieldToPrint_none (line : Bytes) (fields : List Range) (n : Nat) (opt : 
 
 /-- **the closure of `try_for_each` (l.407-446) is `outputBof`** -/
 theorem outputClosure_eq (line : Bytes) (fields : List Range) (n : Nat) (opt : Opt) (dar : Bool)
-    (bof : BoF) (hb : ∀ b, bof = .bound b → BoundOk b) (hn : n < 2147483648) (hd : DarOk opt dar) :
+    (bof : BoF) (hb : ∀ b, bof = .bound b → BoundOk b) (hn : n < 9223372036854775808) (hd : DarOk opt dar) :
     CutStrLit.outputClosure line fields n opt dar bof = outputBof line fields n opt dar bof := by
   cases bof with
   | filler f => simp only [CutStrLit.outputClosure, outputBof, Run.seq_empty]
@@ -219,7 +224,7 @@ theorem outputClosure_eq (line : Bytes) (fields : List Range) (n : Nat) (opt : O
 def BoundsOk (l : List BoF) : Prop := ∀ b, BoF.bound b ∈ l → BoundOk b
 
 theorem tryForEach_eq (line : Bytes) (fields : List Range) (n : Nat) (opt : Opt) (dar : Bool)
-    (hn : n < 2147483648) (hd : DarOk opt dar) :
+    (hn : n < 9223372036854775808) (hd : DarOk opt dar) :
     ∀ (l : List BoF), BoundsOk l →
       CutStrLit.tryForEach line fields n opt dar l = outputLoop line fields n opt dar l
   | [], _ => rfl
@@ -378,7 +383,7 @@ theorem emitStage_eq (line : Bytes) (fields : List Range) (opt : Opt) (dar : Boo
       | panic => rfl
       | ok bounds' =>
         simp only []
-        rw [tryForEach_eq line fields fields.length opt dar hn hd _ (hun bounds' rfl)]
+        rw [tryForEach_eq line fields fields.length opt dar (by omega) hd _ (hun bounds' rfl)]
         simp only [Run.seq_empty, Run.seq_assoc]
 
 /-! ## 3. the stages before the fields are known (l.280-355) -/
@@ -898,14 +903,21 @@ def optOneOpen : Opt :=
 
 /-! ### `FieldsFit`: 2³¹ fields or more
 
-A record with 2³¹ fields cannot be evaluated; the closure takes `num_fields` as a separate argument,
-so one call can be: with `num_fields = 2³¹` the cast `parts_length as i32` is `i32::MIN` and `1:` is
-"Out of bounds: 1" (`Err`), where the model resolves `0..2³¹` (and then finds that the vector is
-too short).  The theorems below show the same for `cut_str` itself on every such record. -/
+Until the repair of `try_into_range` (`i64` arithmetic instead of `parts_length as i32`) this section
+showed that `FieldsFit` could not be dropped: with `num_fields = 2³¹` the cast was `i32::MIN` and `1:`
+was "Out of bounds: 1" (`cutStrLit_length_necessary`, `cutStrLit_ne_cutStr_on_2GiB_line`; commit history
+has them).  These statements are FALSE of the repaired text.  What is true now: for the program without
+options (`-f 1:`, TAB) literal and model AGREE on every record, the records of 2³¹ fields and more
+included (`cutStrLit_eq_cutStr_oneOpen`, `cutStrLit_eq_cutStr_on_2GiB_line`).
 
-#guard CutStrLit.outputClosure [97] [⟨0, 1⟩] 2147483648 optOneOpen false (.bound oneOpen) == Run.fail
+A record with 2³¹ fields cannot be evaluated; the closure takes `num_fields` as a separate argument,
+so one call can be: with `num_fields = 2³¹` (and 2³² + 1, which the cast treated as 1) both resolve
+`1:` to `0..num_fields` (and then find that the vector is too short). -/
+
 #guard outputBof [97] [⟨0, 1⟩] 2147483648 optOneOpen false (.bound oneOpen) == Run.panic
-#guard CutStrLit.outputClosure [97] [⟨0, 1⟩] 4294967297 optOneOpen false (.bound oneOpen) == Run.ok [97]
+#guard [2147483648, 4294967297, 9223372036854775807].all fun n =>
+  CutStrLit.outputClosure [97] [⟨0, 1⟩] n optOneOpen false (.bound oneOpen) ==
+    outputBof [97] [⟨0, 1⟩] n optOneOpen false (.bound oneOpen)
 
 theorem orStop_ok {α : Type} (a : α) (k : α → Run) : CutStrLit.orStop (.ok a) k = k a := rfl
 
@@ -935,16 +947,6 @@ theorem emitRecord_oneOpen (line : Bytes) (fields : List Range) (eol : Bytes) :
   simp only [h1, h2, h3, h5, Bool.and_false, Bool.false_and, Bool.false_or, Bool.false_eq_true, if_false, Run.empty_seq, Run.seq_empty]
   rw [h4, outputLoop, outputLoop, Run.seq_empty]
 
-theorem resolve_oneOpen_fail (n : Nat) (h : 2147483648 ≤ n % 4294967296) :
-    CutStrLit.resolve oneOpen n = .fail := by
-  have hp : (usizeAsI32 n).val < 0 := by rw [usizeAsI32_neg_of_mod h]; omega
-  have h1 : (boundsOfModel oneOpen).l ≠ SideL.some I32.MIN := by decide
-  have h2 : (boundsOfModel oneOpen).r ≠ SideL.some I32.MIN := by decide
-  rcases tryIntoRange_neg (boundsOfModel oneOpen) n hp with h | ⟨_, _, h | h⟩
-  · exact h
-  · exact absurd h h1
-  · exact absurd h h2
-
 theorem tryIntoRange_oneOpen (n : Nat) (h : 0 < n) : oneOpen.tryIntoRange n = Option.some (0, n) := by
   simp only [Tuc.UserBounds.tryIntoRange, oneOpen, Tuc.rangeStart, Tuc.rangeEnd]
   rw [if_neg (by omega), if_neg (by omega)]
@@ -953,50 +955,23 @@ theorem tryIntoRange_oneOpen (n : Nat) (h : 0 < n) : oneOpen.tryIntoRange n = Op
   simp
 
 
-theorem outputClosure_of_fail (line : Bytes) (fields : List Range) (n : Nat) (opt : Opt) (dar : Bool)
-    (b : UserBounds) (hr : CutStrLit.resolve b n = .fail) (hfb : b.fallback = Option.none)
-    (hg : opt.fallbackOob = Option.none) :
-    CutStrLit.outputClosure line fields n opt dar (.bound b) = Run.fail := by
-  have hf : CutStrLit.fieldToPrint line fields n opt dar b = .fail := by
-    unfold CutStrLit.fieldToPrint
-    rw [hr, hfb, hg]
-    rfl
-  rw [CutStrLit.outputClosure, hf]
+theorem boundOk_oneOpen : BoundOk oneOpen :=
+  ⟨⟨by decide, by decide⟩, trivial, by decide⟩
+
+/-- l.416 on `1:`, any number of fields a vector can have -/
+theorem resolve_oneOpen (n : Nat) (h : 0 < n) (hn : n < 9223372036854775808) :
+    CutStrLit.resolve oneOpen n = .ok (0, n) := by
+  rw [resolve_eq oneOpen n boundOk_oneOpen.1 boundOk_oneOpen.2.1 hn boundOk_oneOpen.2.2,
+    tryIntoRange_oneOpen n h]
   rfl
 
-theorem outputBof_ne_fail (line : Bytes) (fields : List Range) (n : Nat) (opt : Opt) (dar : Bool)
-    (b : UserBounds) (s e : Nat) (hr : b.tryIntoRange n = Option.some (s, e))
-    (hj : opt.json = false) :
-    (outputBof line fields n opt dar (.bound b)).status ≠ .fail := by
-  rw [outputBof, hr]
-  simp only []
-  cases fields[s]? with
-  | none => simp [Run.panic]
-  | some fs =>
-    cases fields[e - 1]? with
-    | none => simp [Run.panic]
-    | some fe =>
-      simp only []
-      split
-      · rw [hj]
-        split <;> simp [writeMaybeAsJson, Run.seq, Run.ok, Run.empty]
-      · simp [Run.panic]
-
-theorem emitStage_length_necessary (line : Bytes) (fields : List Range) (eol : Bytes)
-    (h : 2147483648 ≤ fields.length % 4294967296) :
-    CutStrLit.emitStage line fields optOneOpen false eol = Run.fail ∧
-      emitRecord line fields optOneOpen false eol ≠ Run.fail := by
-  constructor
-  · rw [emitStage_oneOpen, outputClosure_of_fail _ _ _ _ _ _ (resolve_oneOpen_fail _ h) rfl rfl]
-    rfl
-  · have hlen : 0 < fields.length := by omega
-    rw [emitRecord_oneOpen]
-    have := outputBof_ne_fail line fields fields.length optOneOpen false oneOpen 0 fields.length
-      (tryIntoRange_oneOpen _ hlen) rfl
-    intro hc
-    generalize outputBof line fields fields.length optOneOpen false (.bound oneOpen) = r at this hc
-    obtain ⟨o, st⟩ := r
-    cases st <;> simp_all [Run.seq, Run.ok, Run.fail]
+/-- l.357-455 for `-f 1:` is `emitRecord`, whatever the number of fields (below 2⁶³) -/
+theorem emitStage_oneOpen_eq (line : Bytes) (fields : List Range) (eol : Bytes)
+    (h : fields.length < 9223372036854775808) :
+    CutStrLit.emitStage line fields optOneOpen false eol = emitRecord line fields optOneOpen false eol := by
+  rw [emitStage_oneOpen, emitRecord_oneOpen,
+    outputClosure_eq line fields fields.length optOneOpen false (.bound oneOpen)
+      (fun b hb => by cases hb; exact boundOk_oneOpen) h (darOk_false optOneOpen)]
 
 theorem cutStrLit_oneOpen (line : Bytes) (fields : List Range) (buf eol : Bytes)
     (hl : line.isEmpty = false) :
@@ -1056,27 +1031,36 @@ theorem fields_tabs (k : Nat) (hk : 0 < k) :
     | succ k => simp [List.replicate_succ])]
   rw [rangesBetween_length', findIter, findIterAux_tabs]
 
-/-- **hypothesis `FieldsFit` cannot be dropped**: on EVERY record with `2³¹ ≤ (number of fields) mod
-    2³²` the program without options (`-f 1:`, TAB) answers "Out of bounds: 1" where the model
-    prints the record … -/
-theorem cutStrLit_length_necessary (line : Bytes) (fields : List Range) (buf eol : Bytes)
-    (h : 2147483648 ≤ (fillWithFieldsLocations [] line [9]).length % 4294967296) :
-    (CutStrLit.cutStrLit line optOneOpen fields buf eol).1 = Run.fail ∧
-      (cutStr line optOneOpen fields buf eol).1 ≠ Run.fail := by
-  have hl : line.isEmpty = false := by
-    cases line with
-    | nil => simp [fillWithFieldsLocations] at h
-    | cons _ _ => rfl
-  rw [cutStrLit_oneOpen line fields buf eol hl, cutStr_oneOpen line fields buf eol hl]
-  exact emitStage_length_necessary line _ eol h
+/-- **`FieldsFit` is no longer needed by the program without options** (`-f 1:`, TAB): on EVERY record
+    — 2³¹ fields and more included, where the text of before the repair answered "Out of bounds: 1" —
+    `cut_str` as written and the model agree (the bound 2⁶³ on the number of fields holds for every
+    vector: `isize::MAX` bytes) … -/
+theorem cutStrLit_eq_cutStr_oneOpen (line : Bytes) (fields : List Range) (buf eol : Bytes)
+    (h : (fillWithFieldsLocations [] line [9]).length < 9223372036854775808) :
+    CutStrLit.cutStrLit line optOneOpen fields buf eol = cutStr line optOneOpen fields buf eol := by
+  cases hl : line.isEmpty with
+  | true =>
+    exact cutStrLit_eq line optOneOpen fields buf eol
+      (fun b hb => by
+        have : BoF.bound b = BoF.bound oneOpen := by simpa [optOneOpen] using hb
+        cases this; exact boundOk_oneOpen)
+      (by
+        have : line = [] := by cases line with
+          | nil => rfl
+          | cons _ _ => cases hl
+        subst this
+        decide)
+  | false =>
+    rw [cutStrLit_oneOpen line fields buf eol hl, cutStr_oneOpen line fields buf eol hl,
+      emitStage_oneOpen_eq line _ eol h]
 
 /-- … for instance on the record made of 2³¹ − 1 TABs (2 GiB): 2³¹ empty fields -/
-theorem cutStrLit_ne_cutStr_on_2GiB_line :
+theorem cutStrLit_eq_cutStr_on_2GiB_line :
     ∃ line : Bytes, line.length = 2147483647 ∧
-      (CutStrLit.cutStrLit line optOneOpen [] [] [10]).1 = Run.fail ∧
-      (cutStr line optOneOpen [] [] [10]).1 ≠ Run.fail :=
-  ⟨List.replicate 2147483647 9, List.length_replicate,
-    cutStrLit_length_necessary _ _ _ _ (by rw [fields_tabs _ (by omega)]; omega)⟩
+      (fillWithFieldsLocations [] line [9]).length = 2147483648 ∧
+      CutStrLit.cutStrLit line optOneOpen [] [] [10] = cutStr line optOneOpen [] [] [10] :=
+  ⟨List.replicate 2147483647 9, List.length_replicate, fields_tabs _ (by omega),
+    cutStrLit_eq_cutStr_oneOpen _ _ _ _ (by rw [fields_tabs _ (by omega)]; omega)⟩
 
 end CutStrLitProps
 end Tuc
